@@ -128,7 +128,12 @@ def run(ck):
         for a in c["args"][:2]:
             vals = [x for x in walk(a) if x.get("k") == "ref" and x.get("dk") == "enumconst"]
             il = [x for x in walk(a) if x.get("k") == "initlist"]
-            if not il:
+            a0 = skip_copies(a)
+            while a0.get("k") in ("cast", "defaultarg") and isinstance(a0.get("e"), dict):
+                a0 = skip_copies(a0["e"])
+            if not il and a0.get("k") == "construct" and not [x for x in a0.get("args", []) if x.get("k") != "defaultarg"]:
+                sets.append(set())      # `{}` / QSet<HandlerType>(): the empty class set
+            elif not il:
                 sets.append(None)
             else:
                 sets.append({ename.get(v.get("value"), "?") for v in vals})
